@@ -24,7 +24,11 @@ Record Rel (L : list (nat * nat)) (st : lst) (e : est) (s : mst) : Prop := mkRel
            exists z, alookup v (e_lv e) = Some z /\ m_reg s (Rg BR r) = Some z;
   r_n : m_n s = e_n e;
   r_script : m_script s = e_script e;
-  r_trace : m_trace s = e_trace e
+  r_trace : m_trace s = e_trace e;
+  (* a register future bound in this block has been assigned (wfs: its measurement ran) *)
+  r_rfdef : forall r m, alook r (l_rf st) = Some (Rg BM m) -> alookup r (e_reg e) <> None;
+  (* every array of the specification state is known to the lowering of this block *)
+  r_dom : forall a, alookup a (e_arr e) <> None -> alook a L <> None
 }.
 
 Lemma reg_eqb_true : forall a b, reg_eqb a b = true -> a = b.
@@ -45,7 +49,7 @@ Definition untracked (st : lst) (g : reg) : Prop :=
 
 Lemma Rel_set_reg : forall L st e s g z, Rel L st e s -> untracked st g -> Rel L st e (set_reg s g z).
 Proof.
-  intros L st e s g z [A B C D E F G H I J K] [U1 U2]. constructor; try assumption.
+  intros L st e s g z [A B C D E F G H I J K RD1 RD2] [U1 U2]. constructor; try assumption.
   - intros r m Hr z' Hz. rewrite m_reg_set_other; [eauto|]. intro X. symmetry in X. eapply U2; eauto.
   - intros v r Hv. destruct (H _ _ Hv) as (z' & H1 & H2). exists z'. split; [exact H1|].
     rewrite m_reg_set_other; [exact H2|]. intro X. symmetry in X. eapply U1; eauto.
@@ -71,7 +75,7 @@ Lemma Rel_st : forall L st st1 e s, Rel L st e s ->
   (forall r m, alook r (l_rf st1) = Some (Rg BM m) -> alook r (l_rf st) = Some (Rg BM m)) ->
   Rel L st1 e s.
 Proof.
-  intros L st st1 e s [A B C D E F G H I J K] Eq Hl Hr. constructor; rewrite ?Eq; eauto.
+  intros L st st1 e s [A B C D E F G H I J K RD1 RD2] Eq Hl Hr. constructor; rewrite ?Eq; eauto.
 Qed.
 
 Lemma Rel_sba : forall L st st1 e s, Rel L st e s -> sba st st1 -> Rel L st1 e s.
@@ -81,7 +85,7 @@ Qed.
 
 Lemma Rel_emit : forall L st e s t, Rel L st e s -> Rel L st (ev_emit e t) (emit s t).
 Proof.
-  intros L st e s t [A B C D E F G H I J K]. constructor; cbn; try assumption. congruence.
+  intros L st e s t [A B C D E F G H I J K RD1 RD2]. constructor; cbn; try assumption. congruence.
 Qed.
 
 (* ------------------------------------------------------------------ structured code from instruction lists *)
@@ -171,7 +175,7 @@ Proof.
   assert (Hk := ix_val _ _ _ _ _ _ _ H Ek R).
   exists (set_arr s a l'). cbn [exec_instr]. rewrite (r_arr _ _ _ _ R), Ea, Hk, Hv.
   rewrite <- lset_list_set, El. split; [reflexivity|]. split; [|reflexivity].
-  destruct R as [A B C D E F G HH I J K]. constructor; cbn; try assumption.
+  destruct R as [A B C D E F G HH I J K RD1 RD2]. constructor; cbn; try assumption.
   - intro a'. unfold upd_nat. destruct (Nat.eqb a' a) eqn:Eq.
     + apply Nat.eqb_eq in Eq. subst. rewrite alookup_aset_same. reflexivity.
     + apply Nat.eqb_neq in Eq. rewrite alookup_aset_other by exact Eq. apply A.
@@ -179,6 +183,8 @@ Proof.
     + rewrite alookup_aset_same. exists l'. split; [reflexivity|]. rewrite Ea in H0. inversion H0; subst.
       eapply lset_length; eauto.
     + rewrite alookup_aset_other by exact Hne. eauto.
+  - intros a' Ha'. apply RD2. destruct (Nat.eq_dec a' a) as [->|Hne]; [congruence|].
+    rewrite alookup_aset_other in Ha' by exact Hne. exact Ha'.
 Qed.
 
 (* condition / add operands: value and code *)
@@ -316,7 +322,7 @@ Proof.
     rewrite X. reflexivity. }
   exists s3. split.
   - eapply sx_cons; [apply sx_I; reflexivity|]. eapply sx_cons; [apply sx_I; exact E2|]. apply sx_one. exact E3.
-  - destruct HR as [A B C D E F G HH II J K]. constructor; cbn; try assumption.
+  - destruct HR as [A B C D E F G HH II J K RD1 RD2]. constructor; cbn; try assumption.
     + intros q' id' Hq'. destruct (alook q' (l_q st)) as [id0|] eqn:E0.
       * rewrite (alook_app_some _ _ _ _ _ E0) in Hq'. inv_ok Hq'.
         destruct (C _ _ E0) as [C1 C2].
@@ -355,7 +361,7 @@ Lemma Rel_consume : forall L st e sg q id, Inv st ->
   Rel L (deactivate q st) (with_q e (aremove q (e_q e)))
       (mkM (m_reg sg) (m_arr sg) (upd_nat (m_alloc sg) id false) (m_inst sg) (m_n sg) (m_script sg) (m_trace sg)).
 Proof.
-  intros L st e sg q id I [A B C D E F G HH II J K] Eq.
+  intros L st e sg q id I [A B C D E F G HH II J K RD1 RD2] Eq.
   constructor; cbn; try assumption.
   - intros q' id' Hq'. destruct (Nat.eq_dec q' q) as [->|Hne].
     + rewrite alook_adel_same in Hq' by (apply (i_qn _ I)). discriminate.
@@ -393,7 +399,7 @@ Lemma Rel_script_trace : forall L st e sg scr tr,
   Rel L st e sg ->
   Rel L st (mkE (e_arr e) (e_reg e) (e_lv e) (e_q e) (e_n e) scr tr (e_snaps e))
            (mkM (m_reg sg) (m_arr sg) (m_alloc sg) (m_inst sg) (m_n sg) scr tr).
-Proof. intros L st e sg scr tr [A B C D E F G HH II J K]. constructor; cbn; try assumption; reflexivity. Qed.
+Proof. intros L st e sg scr tr [A B C D E F G HH II J K RD1 RD2]. constructor; cbn; try assumption; reflexivity. Qed.
 
 Lemma meas_core : forall L st q ip keep m c st1 e sg o e1,
   low_meas q ip keep st = Ok (m, c, st1) -> Inv st -> ev_measure q ip e = Some (o, e1) -> Rel L st e sg ->
@@ -493,10 +499,13 @@ Proof.
   apply (low_meas_rel_st _ _ _ _ _ _ _ _ _ _ Em) in R1.
   exists sg1. split; [exact X1|].
   destruct (low_meas_facts _ _ _ _ _ _ _ Em) as (id & _ & _ & _ & _ & _ & RF1 & _).
-  destruct R1 as [A B C D E F G HH II J K]. constructor; cbn; try assumption.
-  intros r' m' Hr z Hz. destruct (Nat.eqb r' r) eqn:Eq.
-  - apply Nat.eqb_eq in Eq. subst. inv_ok Hr. rewrite alookup_aset_same in Hz. inv_ok Hz. exact M1.
-  - apply Nat.eqb_neq in Eq. rewrite alookup_aset_other in Hz by exact Eq. eapply G; eauto.
+  destruct R1 as [A B C D E F G HH II J K RD1 RD2]. constructor; cbn; try assumption.
+  - intros r' m' Hr z Hz. destruct (Nat.eqb r' r) eqn:Eq.
+    + apply Nat.eqb_eq in Eq. subst. inv_ok Hr. rewrite alookup_aset_same in Hz. inv_ok Hz. exact M1.
+    + apply Nat.eqb_neq in Eq. rewrite alookup_aset_other in Hz by exact Eq. eapply G; eauto.
+  - intros r' m' Hr. destruct (Nat.eqb r' r) eqn:Eq.
+    + apply Nat.eqb_eq in Eq. subst. rewrite alookup_aset_same. discriminate.
+    + apply Nat.eqb_neq in Eq. rewrite alookup_aset_other by exact Eq. eapply RD1; eauto.
 Qed.
 
 Lemma sim_newarray : forall a n init, sim_of (SNewArray a n init).
@@ -595,13 +604,16 @@ Proof.
   - apply sx_instrs. unfold Lower.M. eapply exec_instrs_app; [exact E2|]. cbn [exec_instrs]. rewrite E3. reflexivity.
   - assert (Hh := low_src_held _ _ _ _ _ _ Hs).
     eapply Rel_sba; [|eapply sba_trans; [eapply sba_held; eauto|apply sba_release_all]].
-    destruct R2 as [A B C D E F G HH II J K]. constructor; try (cbn; assumption).
-    cbn [e_reg with_reg l_rf]. intros r' m' Hr z' Hz. destruct (Nat.eq_dec r' r) as [->|Hne].
-    + rewrite Er in Hr. inv_ok Hr. rewrite alookup_aset_same in Hz. inv_ok Hz. apply m_reg_set_same.
-    + rewrite alookup_aset_other in Hz by exact Hne.
+    destruct R2 as [A B C D E F G HH II J K RD1 RD2]. constructor; try (cbn; assumption).
+    + cbn [e_reg with_reg l_rf]. intros r' m' Hr z' Hz. destruct (Nat.eq_dec r' r) as [->|Hne].
+      * rewrite Er in Hr. inv_ok Hr. rewrite alookup_aset_same in Hz. inv_ok Hz. apply m_reg_set_same.
+      * rewrite alookup_aset_other in Hz by exact Hne.
         assert (Hm : m' <> k).
         { intro X. subst. apply Hne. eapply (i_rfinj _ I); eauto. }
         rewrite m_reg_set_other; [eapply G; eauto|]. intro X. inversion X. contradiction.
+    + cbn [e_reg with_reg l_rf]. intros r' m' Hr. destruct (Nat.eq_dec r' r) as [->|Hne].
+      * rewrite alookup_aset_same. discriminate.
+      * rewrite alookup_aset_other by exact Hne. eapply RD1; eauto.
 Qed.
 
 (* ------------------------------------------------------------------ states that differ in one untracked register *)
@@ -630,7 +642,7 @@ Qed.
 
 Lemma Rel_agree : forall L st e s s' g, Rel L st e s -> untracked st g -> agree_but g s s' -> Rel L st e s'.
 Proof.
-  intros L st e s s' g [A B C D E F G H I J K] [U1 U2] (A1 & A2 & A3 & A4 & A5 & A6 & A7).
+  intros L st e s s' g [A B C D E F G H I J K RD1 RD2] [U1 U2] (A1 & A2 & A3 & A4 & A5 & A6 & A7).
   apply mkRel.
   - intro a. rewrite A2. apply A.
   - exact B.
@@ -644,6 +656,8 @@ Proof.
   - congruence.
   - congruence.
   - congruence.
+  - exact RD1.
+  - exact RD2.
 Qed.
 
 (* ------------------------------------------------------------------ loop variables *)
@@ -651,7 +665,7 @@ Lemma Rel_bind : forall L st e s v r i,
   Rel L st e s -> alook v (l_lv st) = None -> m_reg s (Rg BR r) = Some i ->
   Rel L (bind_lvr v r st) (bind_lv v i (drop_lv v e)) s.
 Proof.
-  intros L st e s v r i [A B C D E F G H I J K] Hv Hr. constructor; cbn; try assumption.
+  intros L st e s v r i [A B C D E F G H I J K RD1 RD2] Hv Hr. constructor; cbn; try assumption.
   intros v' r' Hv'. destruct (Nat.eqb v' v) eqn:Ev.
   - inversion Hv'; subst. exists i. split; [reflexivity|exact Hr].
   - destruct (H _ _ Hv') as (z & H1 & H2). exists z. split; [|exact H2].
@@ -660,7 +674,7 @@ Qed.
 
 Lemma Rel_drop : forall L st e s v, Rel L st e s -> alook v (l_lv st) = None -> Rel L st (drop_lv v e) s.
 Proof.
-  intros L st e s v [A B C D E F G H I J K] Hv. constructor; cbn; try assumption.
+  intros L st e s v [A B C D E F G H I J K RD1 RD2] Hv. constructor; cbn; try assumption.
   intros v' r' Hv'. destruct (H _ _ Hv') as (z & H1 & H2). exists z. split; [|exact H2].
   rewrite alookup_aremove_other; [exact H1|]. intro X. subst. congruence.
 Qed.
@@ -1214,5 +1228,6 @@ Proof.
 Qed.
 Lemma Rel_init : forall script, Rel [] l0 (e0 script) (m0 script).
 Proof.
-  intro script. constructor; cbn; try (intros; discriminate); try reflexivity; try constructor.
+  intro script. apply mkRel; cbn; try (intros; discriminate); try reflexivity; try constructor.
+  intros a Ha. exfalso. apply Ha. reflexivity.
 Qed.
